@@ -23,6 +23,7 @@ type posaGen struct {
 	next   int
 	period uint64
 	tips   []string // labels of stored headers, in order of storage
+	pref   string   // "in": seal in turn when possible, "out": out of turn when possible, "": either
 	rej    []string // labels of rejected headers
 }
 
@@ -141,7 +142,7 @@ func (g *posaGen) run(long bool) {
 	}
 	steps := 25 + r.Rng.Intn(r.Pick(40, 90))
 	if long {
-		steps = 262 + r.Rng.Intn(20)
+		steps = 250 + r.Rng.Intn(15)
 	}
 	mutRate := 3 + r.Rng.Intn(4) // one in mutRate steps is a mutation
 	if long {
@@ -207,8 +208,55 @@ func (g *posaGen) run(long bool) {
 			r.Sample(map[string]interface{}{"router": g.rt, "mutation": mut, "outcome": out, "set_in_effect": len(set), "number": tip.num + 1})
 		}
 	}
+	if f := g.f; f.nodes[cur] != nil && f.nodes[cur].stored {
+		g.flips(cur)
+	}
 	g.do("junk")
 	g.do("state")
+}
+
+// grow adds up to n valid headers on top of from, sealing in turn / out of turn as preferred; it returns the last stored label.
+func (g *posaGen) grow(from string, n int, pref string) string {
+	g.pref = pref
+	defer func() { g.pref = "" }()
+	cur := from
+	for i := 0; i < n; i++ {
+		tip := g.f.nodes[cur]
+		if tip == nil || !tip.stored {
+			break
+		}
+		_, hBefore, _, _, _ := g.f.canonLine()
+		id, out := g.step(tip, "valid", uint64(1)<<60)
+		if id == "" || !strings.HasPrefix(out, "ok") {
+			break
+		}
+		_, hAfter, _, _, _ := g.f.canonLine()
+		if hAfter < hBefore {
+			g.r.Hist("canon.height-decrease")
+		}
+		g.tips = append(g.tips, id)
+		cur = id
+	}
+	return cur
+}
+
+// flips: competing forks whose canonical status changes back and forth, with a canonical height that goes down:
+// fork X of k out-of-turn headers (difficulty 1 each) becomes canonical; a SHORTER fork Y of in-turn headers
+// (difficulty 2 each) from the same point overtakes it, which lowers the canonical height and must delete the
+// assignments above the new head; then X grows until it wins again, then Y once more.
+func (g *posaGen) flips(from string) {
+	r := g.r
+	k := 3 + r.Rng.Intn(3)
+	m := k/2 + 1
+	x := g.grow(from, k, "out")
+	y := g.grow(from, m, "in")
+	x = g.grow(x, 2+r.Rng.Intn(3), []string{"out", "in", ""}[r.Rng.Intn(3)])
+	y = g.grow(y, 1+r.Rng.Intn(3), "in")
+	if r.Rng.Bool() {
+		x = g.grow(x, 3+r.Rng.Intn(3), "in")
+	}
+	_ = y
+	r.Hist("gen.flips")
 }
 
 func mustAnc(f *posaFam, n *posaNode) []*posaNode {
@@ -255,10 +303,18 @@ func (g *posaGen) step(tip *posaNode, mut string, epochEvery uint64) (string, st
 	signer := -1
 	if len(cand) > 0 {
 		signer = cand[r.Rng.Intn(len(cand))]
-		if r.Rng.Chance(3, 5) {
+		if (g.pref == "" && r.Rng.Chance(3, 5)) || g.pref == "in" {
 			for _, k := range cand {
 				if k == inTurnKey {
 					signer = k
+				}
+			}
+		}
+		if g.pref == "out" {
+			for _, k := range cand {
+				if k != inTurnKey {
+					signer = k
+					break
 				}
 			}
 		}
